@@ -238,18 +238,13 @@ Fixpoint frame_ok (p : list nat) (new s s' : shape) {struct p} : Prop :=
   | _, _ => False
   end.
 
-Lemma add_in_frame p : forall new rc s s', add_in p new rc s = Ok s' -> frame_ok p new s s'.
+Lemma add_in_frame p : forall new s s', add_in p new s = Ok s' -> frame_ok p new s s'.
 Proof.
-  induction p as [|i p IH]; intros new rc [x y cx cy|g kids] s' H; cbn in H; try discriminate.
-  - destruct rc.
-    + destruct (recalc_g (kids ++ [new])); cbn in H; inversion H; subst; cbn; auto.
-    + inversion H; subst; cbn; auto.
+  induction p as [|i p IH]; intros new [x y cx cy|g kids] s' H; cbn in H; try discriminate.
+  - destruct (recalc_g (kids ++ [new])); cbn in H; inversion H; subst; cbn; auto.
   - destruct (nth_error kids i) as [k|] eqn:En; try discriminate.
-    destruct (add_in p new rc k) as [k'|e] eqn:Ea; cbn in H; try discriminate.
-    assert (exists g', s' = Grp g' (set_nth i k' kids)) as [g' ->].
-    { destruct rc.
-      - destruct (recalc_g (set_nth i k' kids)); cbn in H; inversion H; eauto.
-      - inversion H; eauto. }
+    destruct (add_in p new k) as [k'|e] eqn:Ea; cbn in H; try discriminate.
+    destruct (recalc_g (set_nth i k' kids)) as [g'|]; cbn in H; inversion H; subst.
     cbn. exists k, k'. repeat split; eauto.
 Qed.
 
@@ -267,20 +262,20 @@ Fixpoint on_path_okb (p : list nat) (s : shape) {struct p} : bool :=
   end.
 
 Lemma add_in_path_ok p : forall new s s',
-  add_in p new true s = Ok s' -> on_path_okb p s' = true.
+  add_in p new s = Ok s' -> on_path_okb p s' = true.
 Proof.
   induction p as [|i p IH]; intros new [x y cx cy|g kids] s' H; cbn in H; try discriminate.
   - destruct (recalc_g (kids ++ [new])) as [g'|] eqn:Er; cbn in H; inversion H; subst.
     cbn. rewrite (recalc_g_box _ _ Er). reflexivity.
   - destruct (nth_error kids i) as [k|] eqn:En; try discriminate.
-    destruct (add_in p new true k) as [k'|e] eqn:Ea; cbn in H; try discriminate.
+    destruct (add_in p new k) as [k'|e] eqn:Ea; cbn in H; try discriminate.
     destruct (recalc_g (set_nth i k' kids)) as [g'|] eqn:Er; cbn in H; inversion H; subst.
     cbn. rewrite (recalc_g_box _ _ Er), (nth_error_set_nth _ _ _ _ En). cbn. eapply IH; eauto.
 Qed.
 
-(** Additions that recalculate preserve consistency of the whole tree. *)
+(** An addition preserves consistency of the whole tree. *)
 Lemma add_in_consistent p : forall new s s',
-  Consistent s -> Consistent new -> add_in p new true s = Ok s' -> Consistent s'.
+  Consistent s -> Consistent new -> add_in p new s = Ok s' -> Consistent s'.
 Proof.
   unfold Consistent.
   induction p as [|i p IH]; intros new [x y cx cy|g kids] s' Hs Hn H; cbn in H; try discriminate;
@@ -288,139 +283,46 @@ Proof.
   - destruct (recalc_g (kids ++ [new])) as [g'|] eqn:Er; cbn in H; inversion H; subst.
     cbn. rewrite (recalc_g_box _ _ Er), forallb_app, Hk; cbn. rewrite Hn; reflexivity.
   - destruct (nth_error kids i) as [k|] eqn:En; try discriminate.
-    destruct (add_in p new true k) as [k'|e] eqn:Ea; cbn in H; try discriminate.
+    destruct (add_in p new k) as [k'|e] eqn:Ea; cbn in H; try discriminate.
     destruct (recalc_g (set_nth i k' kids)) as [g'|] eqn:Er; cbn in H; inversion H; subst.
     cbn. rewrite (recalc_g_box _ _ Er); cbn.
     apply forallb_set_nth; auto.
     apply (IH new k k'); auto. eapply forallb_nth_error; eauto.
 Qed.
 
-(** An addition that does not recalculate keeps consistency exactly when the bounding
-    box of the receiving group is not changed by the new member. *)
-Fixpoint unaffected (p : list nat) (new s : shape) {struct p} : Prop :=
-  match s with
-  | Leaf _ _ _ _ => True
-  | Grp g kids =>
-      match p with
-      | [] => child_extents (kids ++ [new]) = child_extents kids
-      | i :: p' => match nth_error kids i with Some k => unaffected p' new k | None => True end
-      end
-  end.
+Lemma member_consistent m : Consistent (member_shape m).
+Proof. destruct m; reflexivity. Qed.
 
-Lemma min_list_app h t a : min_list h (t ++ [a]) = Z.min (min_list h t) a.
-Proof. unfold min_list. rewrite fold_left_app. reflexivity. Qed.
-Lemma max_list_app h t a : max_list h (t ++ [a]) = Z.max (max_list h t) a.
-Proof. unfold max_list. rewrite fold_left_app. reflexivity. Qed.
-
-Lemma map_plus_ext {A} (f g : A -> Z) l : forall l',
-  map f l' = map f l -> map g l' = map g l ->
-  map (fun s => f s + g s) l' = map (fun s => f s + g s) l.
-Proof.
-  induction l as [|k r IH]; intros [|k' r'] Hf Hg; cbn in *; try discriminate; auto.
-  inversion Hf; inversion Hg. f_equal; try lia. apply IH; auto.
-Qed.
-
-(** The extents of a group depend on a replaced member only through its four numbers. *)
-Lemma child_extents_ext kids kids' :
-  map sh_x kids' = map sh_x kids -> map sh_y kids' = map sh_y kids ->
-  map sh_cx kids' = map sh_cx kids -> map sh_cy kids' = map sh_cy kids ->
-  child_extents kids' = child_extents kids.
-Proof.
-  intros Hx Hy Hcx Hcy.
-  pose proof (map_plus_ext sh_x sh_cx kids kids' Hx Hcx) as Hsx.
-  pose proof (map_plus_ext sh_y sh_cy kids kids' Hy Hcy) as Hsy.
-  destruct kids as [|k r], kids' as [|k' r']; cbn in *; try discriminate; auto.
-  inversion Hx; inversion Hy; inversion Hsx; inversion Hsy. congruence.
-Qed.
-
-Lemma map_set_nth {A B} (f : A -> B) l : forall i a k,
-  nth_error l i = Some k -> f a = f k -> map f (set_nth i a l) = map f l.
-Proof.
-  unfold set_nth.
-  induction l as [|b l IH]; intros [|i] a k H E; cbn in *; try discriminate.
-  - inversion H; subst. rewrite E. reflexivity.
-  - f_equal. eapply IH; eauto.
-Qed.
-
-(** Without recalculation the xfrm of every group on the path stays what it was. *)
-Lemma add_in_norecalc_xfrm p : forall new s s',
-  add_in p new false s = Ok s' ->
-  sh_x s' = sh_x s /\ sh_y s' = sh_y s /\ sh_cx s' = sh_cx s /\ sh_cy s' = sh_cy s.
-Proof.
-  destruct p as [|i p]; intros new [x y cx cy|g kids] s' H; cbn in H; try discriminate.
-  - inversion H; subst; cbn; auto.
-  - destruct (nth_error kids i) as [k|]; try discriminate.
-    destruct (add_in p new false k) as [k'|e]; cbn in H; try discriminate.
-    inversion H; subst; cbn; auto.
-Qed.
-
-Lemma add_in_norecalc_consistent p : forall new s s',
-  Consistent s -> Consistent new -> unaffected p new s ->
-  add_in p new false s = Ok s' -> Consistent s'.
-Proof.
-  unfold Consistent.
-  induction p as [|i p IH]; intros new [x y cx cy|g kids] s' Hs Hn Hu H; cbn in H; try discriminate;
-    cbn in Hs; apply andb_true_iff in Hs as [Hb Hk].
-  - inversion H; subst. cbn in Hu. cbn.
-    unfold box_okb in *. rewrite Hu, Hb, forallb_app, Hk; cbn. rewrite Hn; reflexivity.
-  - destruct (nth_error kids i) as [k|] eqn:En; try discriminate.
-    destruct (add_in p new false k) as [k'|e] eqn:Ea; cbn in H; try discriminate.
-    inversion H; subst. cbn in Hu; rewrite En in Hu.
-    destruct (add_in_norecalc_xfrm _ _ _ _ Ea) as (Ex & Ey & Ecx & Ecy).
-    cbn. unfold box_okb in *.
-    rewrite (child_extents_ext kids (set_nth i k' kids)); [rewrite Hb; cbn | | | |];
-      try (eapply map_set_nth; eauto).
-    apply forallb_set_nth; auto.
-    apply (IH new k k'); auto. eapply forallb_nth_error; eauto.
-Qed.
-
-(** Slide level. *)
-Definition slide_unaffected (p : list nat) (new : shape) (sl : slide) : Prop :=
-  match p with
-  | [] => True
-  | i :: p' => match nth_error sl i with Some s => unaffected p' new s | None => True end
-  end.
-
-Definition gop_safe (sl : slide) (op : gop) : Prop :=
-  Consistent (go_new op) /\
-  (go_rc op = true \/ slide_unaffected (go_path op) (go_new op) sl).
-
+(** Slide level: every kind of addition, at every path, keeps every group of the
+    slide equal to the bounding box of its members. *)
 Lemma gstep_consistent sl op sl' :
-  AllConsistent sl -> gop_safe sl op -> gstep sl op = Ok sl' -> AllConsistent sl'.
+  AllConsistent sl -> gstep sl op = Ok sl' -> AllConsistent sl'.
 Proof.
-  unfold AllConsistent, gop_safe, gstep, slide_add.
-  destruct op as [p new rc]; cbn [go_path go_new go_rc].
-  intros Hs [Hn Hsafe] H.
+  unfold AllConsistent, gstep, slide_add.
+  destruct op as [p m]; cbn [go_path go_new].
+  pose proof (member_consistent m) as Hn. set (new := member_shape m) in *.
+  intros Hs H.
   destruct p as [|i p].
   - inversion H; subst. rewrite forallb_app, Hs; cbn. unfold Consistent in Hn; rewrite Hn; reflexivity.
   - destruct (nth_error sl i) as [k|] eqn:En; try discriminate.
-    destruct (add_in p new rc k) as [k'|e] eqn:Ea; cbn in H; try discriminate.
+    destruct (add_in p new k) as [k'|e] eqn:Ea; cbn in H; try discriminate.
     inversion H; subst.
     apply forallb_set_nth; auto.
     pose proof (forallb_nth_error _ _ _ _ Hs En) as Hk.
-    destruct rc.
-    + exact (add_in_consistent p new k k' Hk Hn Ea).
-    + destruct Hsafe as [?|Hu]; try discriminate. cbn in Hu; rewrite En in Hu.
-      exact (add_in_norecalc_consistent p new k k' Hk Hn Hu Ea).
+    exact (add_in_consistent p new k k' Hk Hn Ea).
 Qed.
-
-(** A history every step of which is safe in the state it is performed in. *)
-Fixpoint run_safe (sl : slide) (ops : list gop) : Prop :=
-  match ops with
-  | [] => True
-  | op :: r => gop_safe sl op /\
-               match gstep sl op with Ok sl' => run_safe sl' r | Err _ => True end
-  end.
 
 Lemma slide_history_consistent ops : forall sl sl',
-  AllConsistent sl -> run_safe sl ops -> slide_run sl ops = Ok sl' -> AllConsistent sl'.
+  AllConsistent sl -> slide_run sl ops = Ok sl' -> AllConsistent sl'.
 Proof.
-  induction ops as [|op ops IH]; intros sl sl' Hs Hsafe H; cbn in *.
+  induction ops as [|op ops IH]; intros sl sl' Hs H; cbn in *.
   - inversion H; subst; auto.
-  - destruct Hsafe as [Hop Hrest].
-    destruct (gstep sl op) as [sl1|e] eqn:E; cbn in H; try discriminate.
-    apply (IH sl1 sl'); auto. exact (gstep_consistent sl op sl1 Hs Hop E).
+  - destruct (gstep sl op) as [sl1|e] eqn:E; cbn in H; try discriminate.
+    apply (IH sl1 sl'); auto. exact (gstep_consistent sl op sl1 Hs E).
 Qed.
+
+Lemma slide_history_from_empty ops sl' : slide_run [] ops = Ok sl' -> AllConsistent sl'.
+Proof. apply slide_history_consistent. reflexivity. Qed.
 
 (** Slide-level frame and path statements for one addition. *)
 Definition slide_frame_ok (p : list nat) (new : shape) (sl sl' : slide) : Prop :=
@@ -435,37 +337,58 @@ Definition slide_path_okb (p : list nat) (sl : slide) : bool :=
   | i :: p' => match nth_error sl i with Some k => on_path_okb p' k | None => false end
   end.
 
-Lemma slide_add_spec p new rc sl sl' :
-  slide_add p new rc sl = Ok sl' ->
-  slide_frame_ok p new sl sl' /\ (rc = true -> slide_path_okb p sl' = true).
+Lemma slide_add_spec p new sl sl' :
+  slide_add p new sl = Ok sl' ->
+  slide_frame_ok p new sl sl' /\ slide_path_okb p sl' = true.
 Proof.
   unfold slide_add, slide_frame_ok, slide_path_okb. destruct p as [|i p]; intros H.
   - inversion H; auto.
   - destruct (nth_error sl i) as [k|] eqn:En; try discriminate.
-    destruct (add_in p new rc k) as [k'|e] eqn:Ea; cbn in H; try discriminate.
+    destruct (add_in p new k) as [k'|e] eqn:Ea; cbn in H; try discriminate.
     inversion H; subst. split.
     + exists k, k'. repeat split; auto. eapply add_in_frame; eauto.
-    + intros ->. rewrite (nth_error_set_nth _ _ _ _ En). eapply add_in_path_ok; eauto.
+    + rewrite (nth_error_set_nth _ _ _ _ En). eapply add_in_path_ok; eauto.
 Qed.
 
-(** The two additions the implementation performs without recalculation break
-    consistency: an empty group (add_group_shape) and a leaf (a freeform shape). *)
-Lemma add_empty_group_breaks :
-  exists s s', Consistent s /\ Consistent (Grp gxf0 []) /\
-               add_in [] (Grp gxf0 []) false s = Ok s' /\ ~ Consistent s'.
+(** Regression witnesses.  Before the repair of add_group_shape and convert_to_shape
+    these two additions inserted the member without any recalculation ([add_stale]
+    below is that old behaviour); on the witnesses the old behaviour leaves the group
+    stale, the present one does not. *)
+Fixpoint add_stale (p : list nat) (new : shape) (s : shape) {struct p} : res shape :=
+  match s with
+  | Leaf _ _ _ _ => Err IndexErr
+  | Grp g kids =>
+      match p with
+      | [] => Ok (Grp g (kids ++ [new]))
+      | i :: p' =>
+          match nth_error kids i with
+          | None => Err IndexErr
+          | Some k => bind (add_stale p' new k) (fun k' => Ok (Grp g (set_nth i k' kids)))
+          end
+      end
+  end.
+
+Definition witness_group : shape := Grp (mkG 100 100 50 50 100 100 50 50) [Leaf 100 100 50 50].
+
+Lemma regression_empty_group :
+  Consistent witness_group /\
+  (exists s', add_stale [] (Grp gxf0 []) witness_group = Ok s' /\ consistentb s' = false) /\
+  add_in [] (Grp gxf0 []) witness_group
+  = Ok (Grp (mkG 0 0 150 150 0 0 150 150) [Leaf 100 100 50 50; Grp gxf0 []]) /\
+  consistentb (Grp (mkG 0 0 150 150 0 0 150 150) [Leaf 100 100 50 50; Grp gxf0 []]) = true.
 Proof.
-  exists (Grp (mkG 100 100 50 50 100 100 50 50) [Leaf 100 100 50 50]).
-  eexists. unfold Consistent. repeat split; try (vm_compute; reflexivity).
-  vm_compute. discriminate.
+  split; [reflexivity|]. split; [eexists; split; vm_compute; reflexivity|].
+  split; vm_compute; reflexivity.
 Qed.
 
-Lemma add_leaf_norecalc_breaks :
-  exists s new s', Consistent s /\ Consistent new /\
-                   add_in [] new false s = Ok s' /\ ~ Consistent s'.
+Lemma regression_freeform :
+  (exists s', add_stale [] (Leaf 10 10 500 500) witness_group = Ok s' /\ consistentb s' = false) /\
+  add_in [] (Leaf 10 10 500 500) witness_group
+  = Ok (Grp (mkG 10 10 500 500 10 10 500 500) [Leaf 100 100 50 50; Leaf 10 10 500 500]) /\
+  consistentb (Grp (mkG 10 10 500 500 10 10 500 500) [Leaf 100 100 50 50; Leaf 10 10 500 500]) = true.
 Proof.
-  exists (Grp (mkG 100 100 50 50 100 100 50 50) [Leaf 100 100 50 50]), (Leaf 10 10 500 500).
-  eexists. unfold Consistent. repeat split; try (vm_compute; reflexivity).
-  vm_compute. discriminate.
+  split; [eexists; split; vm_compute; reflexivity|].
+  split; vm_compute; reflexivity.
 Qed.
 
 (* ---- min / max over a non-empty list, and the bounding box in the usual sense ---- *)
@@ -892,16 +815,16 @@ Lemma conn_example :
   = Some (mkConn 20 (-9) 5 6 false false).
 Proof. vm_compute. reflexivity. Qed.
 
-(** Non-vacuity for the group theorems: a nest of depth four filled from the inside,
-    every step safe, consistent at the end. *)
-Definition g_empty : shape := Grp gxf0 [].
+(** Non-vacuity for the group theorems: a nest of depth four created empty (every
+    add_group_shape recalculates upward) and then filled from the inside. *)
 Definition nest_ops : list gop :=
-  [mkGop [] g_empty false; mkGop [0%nat] g_empty false; mkGop [0%nat; 0%nat] g_empty false;
-   mkGop [0%nat; 0%nat; 0%nat] g_empty false;
-   mkGop [0%nat; 0%nat; 0%nat; 0%nat] (Leaf (-100) 50 10 20) true;
-   mkGop [0%nat; 0%nat; 0%nat] (Leaf 7 (-7) 3 3) true;
-   mkGop [0%nat] (Leaf 1000 1000 5 5) true;
-   mkGop [] (Leaf 1 2 3 4) false].
+  [mkGop [] MGroup; mkGop [0%nat] MGroup; mkGop [0%nat; 0%nat] MGroup;
+   mkGop [0%nat; 0%nat; 0%nat] MGroup;
+   mkGop [0%nat; 0%nat; 0%nat; 0%nat] (MLeaf (-100) 50 10 20);
+   mkGop [0%nat; 0%nat; 0%nat] (MLeaf 7 (-7) 3 3);
+   mkGop [0%nat; 0%nat; 0%nat] MGroup;
+   mkGop [0%nat] (MLeaf 1000 1000 5 5);
+   mkGop [] (MLeaf 1 2 3 4)].
 
 Lemma nest_example :
   slide_run [] nest_ops
@@ -909,19 +832,7 @@ Lemma nest_example :
           [Grp (mkG (-100) (-7) 110 77 (-100) (-7) 110 77)
              [Grp (mkG (-100) (-7) 110 77 (-100) (-7) 110 77)
                 [Grp (mkG (-100) 50 10 20 (-100) 50 10 20) [Leaf (-100) 50 10 20];
-                 Leaf 7 (-7) 3 3]];
+                 Leaf 7 (-7) 3 3; Grp gxf0 []]];
            Leaf 1000 1000 5 5];
         Leaf 1 2 3 4].
 Proof. vm_compute. reflexivity. Qed.
-
-Lemma nest_example_safe : run_safe [] nest_ops.
-Proof.
-  unfold nest_ops. cbn [run_safe].
-  repeat match goal with
-         | |- _ /\ _ => split
-         | |- gop_safe _ _ => unfold gop_safe, Consistent; cbn; split; [reflexivity|auto]
-         | |- match gstep ?s ?o with _ => _ end =>
-             let r := eval vm_compute in (gstep s o) in change (gstep s o) with r; cbn beta iota
-         | |- True => exact I
-         end.
-Qed.
